@@ -14,9 +14,11 @@ import (
 	"fmt"
 	"sort"
 	"strings"
+	"sync"
 	"time"
 
 	"gorm.io/gorm"
+	"gorm.io/gorm/schema"
 
 	"verif/sim/core"
 	"verif/sim/env"
@@ -75,7 +77,7 @@ func (Prop) Gen(r *core.Rand, tier string) interface{} {
 			maxOps = 4
 		}
 	}
-	c := &Case{Cold: r.Chance(70), Prepare: r.Chance(30)}
+	c := &Case{Cold: r.Chance(50), Prepare: r.Chance(30)}
 	for t := 0; t < g; t++ {
 		var prog []Op
 		n := 1 + r.Intn(maxOps)
@@ -84,13 +86,15 @@ func (Prop) Gen(r *core.Rand, tier string) interface{} {
 		}
 		c.Tasks = append(c.Tasks, prog)
 	}
-	n := 40 + r.Intn(300)
-	if r.Chance(20) {
+	// schedule: entry 0 = keep running the current task; the density of context
+	// switches is drawn per case (sparse vectors let tasks make progress between
+	// switches, dense ones interleave at almost every yield)
+	n := 300 + r.Intn(2500)
+	density := []int{1, 3, 8, 20, 50}[r.Intn(5)]
+	if r.Chance(8) {
 		n = 0 // run-to-completion schedule
 	}
-	for i := 0; i < n; i++ {
-		c.Vec = append(c.Vec, uint16(r.Intn(64)))
-	}
+	c.Vec = sched.GenVector(r.Intn, n, density)
 	return c
 }
 
@@ -342,9 +346,88 @@ func (p Prop) open(c *Case, s *sched.Sched) (*env.Env, *simpool.Pool, error) {
 	return e, pool, err
 }
 
-func warm(db *gorm.DB) {
+// yieldPool makes the per-type scan-value pools (schema.Field.NewValuePool, an
+// exported seam) scheduling points: another task may run between the moment a
+// value is handed back and whatever the caller does next, and between a Get and
+// its use.  In a serial execution every task passes a database/sql mutex between
+// two pool accesses, which would otherwise hide misuse of pooled values from
+// both the differential oracle and the race detector.
+type yieldPool struct {
+	in interface {
+		Get() interface{}
+		Put(interface{})
+	}
+	s  *sched.Sched
+	st *poolState
+}
+
+// poolState is a simulated sync.Pool: a LIFO free list shared by all tasks, so
+// that Get returns the value most recently Put by anybody (which sync.Pool is
+// free to do, and whether it does depends on the runtime's placement of
+// goroutines on Ps - a source of nondeterminism the simulator must own).  The
+// mutex gives the same Put-happens-before-Get edge sync.Pool gives.
+type poolState struct {
+	mu   sync.Mutex
+	free []interface{}
+}
+
+func (p yieldPool) Get() interface{} {
+	p.s.Yield("valuepool:get")
+	p.st.mu.Lock()
+	var v interface{}
+	if n := len(p.st.free); n > 0 {
+		v = p.st.free[n-1]
+		p.st.free = p.st.free[:n-1]
+	}
+	p.st.mu.Unlock()
+	if v == nil {
+		v = p.in.Get() // the real pool is never Put into: this allocates a fresh value
+	}
+	return v
+}
+
+func (p yieldPool) Put(v interface{}) {
+	p.st.mu.Lock()
+	p.st.free = append(p.st.free, v)
+	p.st.mu.Unlock()
+	p.s.Yield("valuepool:put")
+}
+
+// warm parses every model before the tasks start; with a scheduler it also
+// wraps the value pools of the parsed fields.
+func warm(db *gorm.DB, s *sched.Sched) {
+	seen := map[*schema.Schema]bool{}
+	states := map[interface{}]*poolState{} // one simulated pool per real pool (they are shared per Go type)
+	var wrap func(sc *schema.Schema)
+	wrap = func(sc *schema.Schema) {
+		if sc == nil || seen[sc] {
+			return
+		}
+		seen[sc] = true
+		if s != nil {
+			for _, f := range sc.Fields {
+				if _, done := f.NewValuePool.(yieldPool); !done && f.NewValuePool != nil {
+					st := states[f.NewValuePool]
+					if st == nil {
+						st = &poolState{}
+						states[f.NewValuePool] = st
+					}
+					f.NewValuePool = yieldPool{in: f.NewValuePool, s: s, st: st}
+				}
+			}
+		}
+		for _, rel := range sc.Relationships.Relations {
+			wrap(rel.FieldSchema)
+			if rel.JoinTable != nil {
+				wrap(rel.JoinTable)
+			}
+		}
+	}
 	for _, m := range fam.AllModels() {
-		db.Session(&gorm.Session{}).Statement.Parse(m)
+		st := db.Session(&gorm.Session{}).Statement
+		if err := st.Parse(m); err == nil {
+			wrap(st.Schema)
+		}
 	}
 }
 
@@ -371,14 +454,14 @@ func removeHooks() { sched.SetActive(nil) }
 
 // concurrent runs the programs as tasks under the scheduler.
 func (p Prop) concurrent(c *Case) (*runResult, error) {
-	s := sched.New(c.Vec)
+	s := sched.NewLimit(c.Vec, 60000)
 	e, pool, err := p.open(c, s)
 	if err != nil {
 		return nil, err
 	}
 	defer e.Close()
 	if !c.Cold {
-		warm(e.DB)
+		warm(e.DB, s)
 	}
 	pool.Sched = s
 	e.Drv.Cur = s.Cur
@@ -463,6 +546,9 @@ func (p Prop) Run(ci interface{}, focus *core.Violation) *core.Outcome {
 	for _, tr := range sr.Trace {
 		if strings.Contains(tr, "wait:schema") {
 			o.Count("probe:waited_on_half_built_schema", 1)
+		}
+		if strings.Contains(tr, "valuepool:") {
+			o.Count("probe:value_pool_yield", 1)
 		}
 		if strings.HasSuffix(tr, "relation:after-parse") {
 			o.Count("probe:relation_parse_interleaving_point", 1)
